@@ -1538,7 +1538,7 @@ func c10RunHistory(t *testing.T, col *Collector, h c10Hist) {
 func TestC10(t *testing.T) {
 	seed := envInt("VERIF_SEED", 1)
 	col := NewCollector("C10", seed)
-	n := 56
+	n := 96
 	if tier() == "thorough" {
 		n = 900
 	}
